@@ -53,22 +53,64 @@ func stateOps(root []*ssa.Function, a *svcAnchors) (ops []stateOp, nonAtomic []c
 
 // startedEdge: does the edge establish state == started (given the constant)?
 func startedEdge(e edgeCond, started int64) bool {
-	ci := core.Cond(e.If.Cond)
-	if ci.Kind != "constcmp" || ci.Const == nil {
+	cnd, succ := e.Norm()
+	return startedValue(cnd, succ == 0, started, 0)
+}
+
+// startedValue: cond having truth value `truth` establishes state == started.
+// cond is the comparison of an atomic load with the constant, or the result of
+// a bool helper of the package that returns true only where that holds
+// (`isStarted()`, `startedOrLog(msg)`).
+func startedValue(cond ssa.Value, truth bool, started int64, depth int) bool {
+	for {
+		u, ok := cond.(*ssa.UnOp)
+		if !ok || u.Op != token.NOT {
+			break
+		}
+		cond, truth = u.X, !truth
+	}
+	ci := core.Cond(cond)
+	if ci.Kind == "constcmp" && ci.Const != nil {
+		c, ok := core.Strip(ci.X).(*ssa.Call)
+		if ok && (strings.Contains(core.CalleeName(c), "atomic.LoadInt32") || strings.HasSuffix(core.CalleeName(c), "Int32).Load")) && ci.Const.ExactString() == fmt.Sprint(started) {
+			t := truth
+			if ci.Negate {
+				t = !t
+			}
+			return (ci.Op == token.EQL && t) || (ci.Op == token.NEQ && !t)
+		}
+	}
+	call, ok := cond.(*ssa.Call)
+	if !ok || depth > 3 {
 		return false
 	}
-	c, ok := core.Strip(ci.X).(*ssa.Call)
-	if !ok || !(strings.Contains(core.CalleeName(c), "atomic.LoadInt32") || strings.HasSuffix(core.CalleeName(c), "Int32).Load")) {
+	cal := call.Common().StaticCallee()
+	if cal == nil || len(cal.Blocks) == 0 || cal.Signature.Results().Len() != 1 {
 		return false
 	}
-	if ci.Const.ExactString() != fmt.Sprint(started) {
-		return false
+	n := 0
+	for _, ret := range core.Returns(cal) {
+		for _, src := range phiSources(ret.Results[0]) {
+			if isConstBool(src.V, !truth) {
+				continue // a return incompatible with the observed result
+			}
+			n++
+			if !isConstBool(src.V, truth) && startedValue(src.V, truth, started, depth+1) {
+				continue // the helper returns the comparison itself
+			}
+			okEdge := false
+			for _, de := range srcEdges(ret, src) {
+				dc, ds := de.Norm()
+				if startedValue(dc, ds == 0, started, depth+1) {
+					okEdge = true
+				}
+			}
+			if !okEdge {
+				return false
+			}
+		}
 	}
-	truth := e.Succ == 0
-	if ci.Negate {
-		truth = !truth
-	}
-	return (ci.Op == token.EQL && truth) || (ci.Op == token.NEQ && !truth)
+	return n > 0
 }
 
 func c03(r *core.Run) {
@@ -470,13 +512,15 @@ func c03(r *core.Run) {
 		// enqueue itself
 		guardOK := false
 		var firstLock ssa.Instruction
-		for _, c := range core.Calls(a.Enqueue) {
+		// (the critical section may live in a private helper of enqueue: the lock is then judged
+		// under the edges of the helper's call sites as well)
+		for _, c := range helperCalls(p, a.Enqueue) {
 			if e.lockOp(c) == "lock" && firstLock == nil {
 				firstLock = c
 			}
 		}
 		if firstLock != nil {
-			for _, ed := range dominatingEdges(firstLock) {
+			for _, ed := range ctxEdges(p, firstLock, a.Enqueue, 0) {
 				if startedEdge(ed, started) {
 					guardOK = true
 				}
@@ -527,7 +571,7 @@ func c03(r *core.Run) {
 		if len(stores) == 0 {
 			continue
 		}
-		fl := &core.Flow{Fn: fn, Entry: core.StateSet(0).Add(0), Inline: p.IsPrivateHelper}
+		fl := &core.Flow{Fn: fn, Entry: core.StateSet(0).Add(0), Inline: p.IsPrivateHelper, Tags: true}
 		fl.Transfer = func(in ssa.Instruction, s int) core.StateSet {
 			if e.isRelease(in) {
 				return core.StateSet(0).Add(0)
@@ -702,7 +746,9 @@ func c03Workers(r *core.Run, a *svcAnchors, e *lockEngine) {
 		open   = 1
 		closed = 2
 	)
-	fl := &core.Flow{Fn: w, Entry: core.StateSet(0).Add(need)}
+	// (waiting and popping may live in private bool helpers of the worker loop: they are analysed in
+	// place, and the loop's branch on their result follows only the matching returns)
+	fl := &core.Flow{Fn: w, Entry: core.StateSet(0).Add(need), Tags: true, Inline: func(cal *ssa.Function) bool { return p.IsPrivateHelper(cal) && cal != a.Drain }}
 	fl.Transfer = func(in ssa.Instruction, s int) core.StateSet {
 		if e.isRelease(in) {
 			if _, isRD := in.(*ssa.RunDefers); isRD {
@@ -729,7 +775,10 @@ func c03Workers(r *core.Run, a *svcAnchors, e *lockEngine) {
 	}
 	res := fl.Run()
 	n := 0
-	for _, c := range core.Calls(w) {
+	for _, c := range helperCalls(p, w) {
+		if c.Parent() == a.Drain && a.Drain != w {
+			continue
+		}
 		isWait := e.lockOp(c) == "wait"
 		isDrain := c.Common().StaticCallee() == a.Drain
 		if !isWait && !isDrain {
